@@ -88,7 +88,9 @@ def gen(rng: random.Random, tier: str, idx: int) -> dict:
                 prog.append(["tell"])
         return {"mode": mode, "size": size, "prog": prog, "raw": rng.random() < 0.4}
     # faults
-    op = rng.choice(["read", "write", "exists", "list", "delete", "size", "mtime", "open_seekable_read", "read_json"])
+    op = rng.choice(["read", "write", "exists", "list", "delete", "size", "mtime", "open_seekable_read", "read_json",
+                     "read_missing", "size_missing", "mtime_missing", "open_missing", "etag_missing", "exists_missing",
+                     "seekable_missing"])
     exc, burst = rng.choice([("InternalError", 1), ("InternalError", 3), ("InternalError", 5), ("SlowDown", 5),
                              ("InternalError", 6), ("InternalError", 9), ("EndpointConnectionError", 4),
                              ("EndpointConnectionError", 8), ("AccessDenied", 1), ("NoSuchBucket", 1),
@@ -271,7 +273,10 @@ def execute(plan: dict, scratch: str, replay: Optional[dict] = None) -> dict:
                     bad("B.permanent_retried", f"{op}: permanent {plan['exc']} was retried ({fired} failing attempts)", op)
                 else:
                     sim.probe("permanent_fast_fail")
-            elif burst <= 5:
+            elif burst <= 5 and (not op.endswith("_missing") or op == "exists_missing"
+                                 or plan.get("offset", 0) + burst <= 5):
+                # (on a missing key every attempt ends in an error - 404s are retried by design - so the error that
+                #  surfaces is the one of the 6th attempt: it is the 404 only if the burst is over by then)
                 if got != expect:
                     bad("B.transient_not_masked", f"{op}: transient {plan['exc']} x{burst} (within budget) changed the result: "
                                                   f"{_short(got)} instead of {_short(expect)}", op)
@@ -317,6 +322,21 @@ def _fault_op(s3, op):
             return ("float", round(s3.get_modified_time("data/obj"), 3))
         if op == "read_json":
             return ("json", s3.read_json("metadata/j"))
+        if op == "read_missing":
+            return ("bytes", s3.read_file("data/absent"))
+        if op == "size_missing":
+            return ("int", s3.get_size("data/absent"))
+        if op == "mtime_missing":
+            return ("float", s3.get_modified_time("data/absent"))
+        if op == "open_missing":
+            with s3.open_file("data/absent") as f:
+                return ("bytes", f.read())
+        if op == "etag_missing":
+            return ("bytes", s3.read_file_with_etag("data/absent")[0])
+        if op == "exists_missing":
+            return ("bool", s3.exists("data/absent"))
+        if op == "seekable_missing":
+            return ("bytes", s3.open_seekable("data/absent").read(3))
         if op == "open_seekable_read":
             f = s3.open_seekable("data/obj")
             f.seek(100)
